@@ -56,6 +56,11 @@ def value_helpers(region):
         except mc.Unsupported:
             continue
         st = [x for x in ast[1] if x != ('using',)]
+        # if constexpr (F) { p = E; } return p;    is    if constexpr (F) return E; else return p;
+        if (len(st) == 2 and st[0][0] == 'if' and st[0][1] and st[0][4] is None and st[1] == ('return', ('id', param))):
+            th = [x for x in (st[0][3][1] if st[0][3][0] == 'block' else [st[0][3]]) if x != ('using',)]
+            if len(th) == 1 and th[0][0] == 'expr' and th[0][1][0] == 'assign' and th[0][1][1] == '=' and th[0][1][2] == ('id', param):
+                st = [('if', True, st[0][2], ('block', [('return', th[0][1][3])]), ('block', [('return', ('id', param))]))]
         if (len(st) == 1 and st[0][0] == 'if' and st[0][1] and st[0][2][0] == 'tmpl' and st[0][2][1] == 'has_facet' and len(st[0][2][2]) == 2
                 and norm(st[0][2][2][0]) == 'Policy' and norm(st[0][2][2][1]) in FACETS and st[0][4] is not None):
             t = [x for x in (st[0][3][1] if st[0][3][0] == 'block' else [st[0][3]]) if x != ('using',)]
